@@ -211,19 +211,19 @@ Proof. induction l; cbn; congruence. Qed.
 Definition series_of (tr : traj (F:=R)) (return_magnitudes : bool) (row : list R) : series (F:=R) :=
   let re := lincomb RO (t_width tr) row (phasor_re RO tr) in
   let im := lincomb RO (t_width tr) row (phasor_im RO tr) in
-  if negb return_magnitudes then Mag (map (fun p => cabs RO (fst p) (snd p)) (combine re im)) else Cplx re im.
+  if An_abs_applied return_magnitudes then Mag (map (fun p => cabs RO (fst p) (snd p)) (combine re im)) else Cplx re im.
 
 Lemma constraint_currents_items (tr : traj (F:=R)) flag ids :
   length (t_cmat tr) = length (t_cindex tr) ->
-  constraint_currents RO tr flag ids
+  constraint_currents RO RA tr flag ids
   = dict_of (sel_items _ (series_of tr flag) (requested ids) (t_cindex tr) (t_cmat tr)).
 Proof.
   intro Hlen. unfold constraint_currents, constraint_current, selected_rows, sel_items, series_of. f_equal.
   destruct ids as [l|]; cbn [requested].
   - rewrite (filter_fst_combine (fun c => zmem c l) (t_cindex tr) (t_cmat tr) Hlen).
-    destruct flag; cbn [negb]; rewrite map_map, combine_map_fst_snd; reflexivity.
+    cbn [a_abs_applied RA]. destruct (An_abs_applied flag); rewrite map_map, combine_map_fst_snd; reflexivity.
   - rewrite filter_true.
-    destruct flag; cbn [negb]; rewrite map_map, combine_map_r; reflexivity.
+    cbn [a_abs_applied RA]. destruct (An_abs_applied flag); rewrite map_map, combine_map_r; reflexivity.
 Qed.
 
 (* ------------------------------------------------------------------------------------------ *)
@@ -275,7 +275,7 @@ Proof. induction l; cbn; congruence. Qed.
 
 (* the first-principles series of constraint row j *)
 Definition series_spec (tr : traj (F:=R)) (return_magnitudes : bool) (j : nat) : series (F:=R) :=
-  if negb return_magnitudes
+  if An_abs_applied return_magnitudes
   then Mag (map (fun t => sqrt (cc_re_spec RO tr j t * cc_re_spec RO tr j t + cc_im_spec RO tr j t * cc_im_spec RO tr j t))
                 (periods tr))
   else Cplx (map (cc_re_spec RO tr j) (periods tr)) (map (cc_im_spec RO tr j) (periods tr)).
@@ -284,7 +284,7 @@ Lemma series_of_spec (tr : traj (F:=R)) flag j : wf tr ->
   series_of tr flag (nth j (t_cmat tr) []) = series_spec tr flag j.
 Proof.
   intro Hwf. unfold series_of, series_spec. rewrite lincomb_re_spec, lincomb_im_spec by exact Hwf.
-  destruct flag; cbn [negb]; [reflexivity|].
+  destruct (An_abs_applied flag); [|reflexivity].
   rewrite combine_map_same, map_map. reflexivity.
 Qed.
 
@@ -298,13 +298,13 @@ Qed.
 Theorem constraint_currents_ok (tr : traj (F:=R)) flag ids :
   wf tr -> NoDup (t_cindex tr) ->
   (* the keys: the requested existing constraints, each once, in network order *)
-  map fst (constraint_currents RO tr flag ids) = filter (requested ids) (t_cindex tr)
+  map fst (constraint_currents RO RA tr flag ids) = filter (requested ids) (t_cindex tr)
   (* every requested existing id is mapped to the series of ITS OWN row *)
   /\ (forall j c, nth_error (t_cindex tr) j = Some c -> requested ids c = true ->
-        dict_get c (constraint_currents RO tr flag ids) = Some (series_spec tr flag j))
+        dict_get c (constraint_currents RO RA tr flag ids) = Some (series_spec tr flag j))
   (* nothing else is returned *)
   /\ (forall c, requested ids c = false \/ ~ In c (t_cindex tr) ->
-        dict_get c (constraint_currents RO tr flag ids) = None).
+        dict_get c (constraint_currents RO RA tr flag ids) = None).
 Proof.
   intros Hwf Hnd. pose proof Hwf as (_ & _ & _ & Hlen & _).
   rewrite (constraint_currents_items tr flag ids Hlen).
@@ -321,7 +321,7 @@ Qed.
    (no assumption on the constraint names) *)
 Theorem constraint_currents_order_irrelevant (tr : traj (F:=R)) flag ids ids' :
   (forall c, In c ids <-> In c ids') ->
-  constraint_currents RO tr flag (Some ids) = constraint_currents RO tr flag (Some ids').
+  constraint_currents RO RA tr flag (Some ids) = constraint_currents RO RA tr flag (Some ids').
 Proof.
   intro H.
   assert (Hz : forall c, zmem c ids = zmem c ids').
@@ -431,7 +431,7 @@ Proof.
   rewrite (Hget ja a Ha) by (apply zmem_in; cbn; auto).
   rewrite (Hget jb b Hb) by (apply zmem_in; cbn; auto).
   rewrite (Hget jc c Hc) by (apply zmem_in; cbn; auto).
-  unfold series_spec. cbn [negb mags_of map fold_left length].
+  unfold series_spec, An_abs_applied. cbn [negb mags_of map fold_left length].
   fold (mag_spec tr ja) (mag_spec tr jb) (mag_spec tr jc).
   set (W := t_width tr). unfold periods. fold W.
   set (A := map (mag_spec tr ja) (seq 0 W)). set (Bv := map (mag_spec tr jb) (seq 0 W)).
